@@ -63,14 +63,17 @@ theorem C05_strict_run_is_runG_when_rows_exist (cfg : Cfg) (trigs : List Trig) (
     | nil => unfold runG; rw [hcb]; simp only [hb]
     | cons ts0 bars =>
       rw [hb] at hrows
-      simp only [hrows ts0 (List.mem_cons_self ..), Bool.false_eq_true, if_false]
-      have hn := core_split_none cfg bars (fun t ht => hrows t (List.mem_cons_of_mem _ ht))
-      cases hs : splitAtStrictFail cfg bars with
-      | mk good o =>
-        rw [hs] at hn
-        simp only at hn
-        subst hn
-        rfl
+      cases hp : priceAt cfg ts0 with
+      | none => simp only [hp]; unfold runG; rw [hcb]; simp only [hb, hp]
+      | some pr =>
+        simp only [hp, hrows ts0 (List.mem_cons_self ..), Bool.false_eq_true, if_false]
+        have hn := core_split_none cfg bars (fun t ht => hrows t (List.mem_cons_of_mem _ ht))
+        cases hs : splitAtStrictFail cfg bars with
+        | mk good o =>
+          rw [hs] at hn
+          simp only at hn
+          subst hn
+          rfl
 
 /-- a configuration without strict markets (option markets, the probe markets of the harness): nothing to guard -/
 theorem C05_strict_run_is_runG_without_strict_markets (cfg : Cfg) (trigs : List Trig) (g : GScript)
@@ -95,25 +98,25 @@ theorem C05_strict_market_without_row_ends_the_run (cfg : Cfg) (trigs : List Tri
     | cons ts0 bars =>
       rw [hb] at hbad
       simp only []
-      cases h0 : strictFails cfg ts0 with
-      | true => simp
-      | false =>
-        simp only [Bool.false_eq_true, if_false]
-        obtain ⟨t, ht, htf⟩ := hbad
-        have ht' : t ∈ bars := by
-          rcases List.mem_cons.mp ht with rfl | h'
-          · rw [h0] at htf; cases htf
-          · exact h'
-        obtain ⟨bad, b1, _⟩ := core_split_some cfg bars ⟨t, ht', htf⟩
-        cases hs : splitAtStrictFail cfg bars with
-        | mk good o =>
-          rw [hs] at b1
-          simp only at b1
-          subst b1
-          simp only []
-          cases priceAt cfg ts0 with
-          | none => simp
-          | some p =>
+      cases priceAt cfg ts0 with
+      | none => simp
+      | some p =>
+        simp only []
+        cases h0 : strictFails cfg ts0 with
+        | true => simp
+        | false =>
+          simp only [Bool.false_eq_true, if_false]
+          obtain ⟨t, ht, htf⟩ := hbad
+          have ht' : t ∈ bars := by
+            rcases List.mem_cons.mp ht with rfl | h'
+            · rw [h0] at htf; cases htf
+            · exact h'
+          obtain ⟨bad, b1, _⟩ := core_split_some cfg bars ⟨t, ht', htf⟩
+          cases hs : splitAtStrictFail cfg bars with
+          | mk good o =>
+            rw [hs] at b1
+            simp only at b1
+            subst b1
             simp only []
             cases (runCore cfg trigs g ts0 good).1.2.2 with
             | some e => simp
